@@ -270,6 +270,8 @@ fn cfg_error_code(e: &riscv_analysis::passes::CfgError) -> &'static str {
         E::DuplicateLabel(_) => "cfg:duplicate-label",
         E::MultipleLabelsForReturn(..) => "cfg:multiple-labels-for-return",
         E::NoLabelForReturn(_) => "cfg:no-label-for-return",
+        E::LabelWithoutInstruction(_) => "cfg:label-without-instruction",
+        E::FunctionWithoutReturn(..) => "cfg:function-without-return",
         E::UnexpectedError => "cfg:unexpected-error",
         E::AssertionError => "cfg:assertion-error",
     }
